@@ -113,7 +113,7 @@ type c06Item struct {
 
 func init() {
 	Register(&Scenario{
-		Prop: "C06", Name: "announcements",
+		Prop: "C06", Name: "announcements", Weight: 3,
 		NonTrivial: []string{"c06-tree-compared"},
 		Build: func(w *World) {
 			pr := BuildProto(w, ProtoOpt{Peers: 1 + w.T.Choose(2, "peers"), MinServers: 1, ClientFeats: true, NoConnect: true,
